@@ -135,6 +135,9 @@ func forType(t reflect.Type, seen map[reflect.Type]bool, ignore bool, schemas ma
 
 	if s := schemas[t]; s != nil {
 		cloned := s.CloneSchemas()
+		// CloneSchemas shares slices of non-schema values. Types may belong to the
+		// package's own table of default schemas: give the caller its own copy.
+		cloned.Types = slices.Clone(cloned.Types)
 		if os.Getenv(debugEnv) != "typeschemasnull=1" && allowNull {
 			if cloned.Type != "" {
 				cloned.Types = []string{"null", cloned.Type}
